@@ -45,6 +45,7 @@ def s_detail(draw):
 
 
 DETAILS = st.dictionaries(NAMES, s_detail(), max_size=3)
+CALL = st.sampled_from(["pos", "pos", "kw"])       # err / reason handed over positionally or by keyword
 REASON = st.sampled_from(["", "because", "réason ünicode", "two\nlines", " padded "])
 
 
@@ -57,9 +58,10 @@ def s_payload(draw, kind, allow_err=True, skip_both=False):
         return {"form": draw(st.sampled_from(["none", "details"])), "details": draw(DETAILS)}
     if kind == "skip":
         form = draw(st.sampled_from(["reason", "details", "details+reasondetail"] + (["reason+details"] if skip_both else [])))
-        return {"form": form, "reason": draw(REASON), "details": draw(DETAILS)}
+        return {"form": form, "reason": draw(REASON), "details": draw(DETAILS), "call": draw(CALL)}
     form = draw(st.sampled_from(["err", "details"] if allow_err else ["details"]))
-    return {"form": form, "details": draw(DETAILS), "exc": draw(st.sampled_from(["RuntimeError", "AssertionError", "ValueError", "KeyError"]))}
+    return {"form": form, "details": draw(DETAILS), "exc": draw(st.sampled_from(["RuntimeError", "AssertionError", "ValueError", "KeyError"])),
+            "call": draw(CALL)}
 
 
 PAYLOAD = {k: s_payload(k) for k in KINDS}
@@ -208,7 +210,10 @@ def outcome_call(result, test, op):
     if kind == "skip":
         if p["form"] == "reason":
             info["reason"] = p["reason"]
-            m(test, p["reason"])
+            if p.get("call") == "kw":
+                m(test, reason=p["reason"])
+            else:
+                m(test, p["reason"])
         elif p["form"] == "reason+details":
             d = make_details(p["details"])
             info["reason"] = p["reason"]
@@ -230,7 +235,10 @@ def outcome_call(result, test, op):
     else:
         ei = make_exc_info(p["exc"], op["marker"])
         info["err"] = ei
-        m(test, ei)
+        if p.get("call") == "kw":
+            m(test, err=ei)
+        else:
+            m(test, ei)
     return info
 
 
